@@ -121,7 +121,8 @@ def analyse(p: State, counting: bool, token_params: Dict[str, Tuple[str, str, Li
                     loop_idx_var = idxs
             elif len(fl.held) != 1:
                 fl.problems.append(("own.loop-invariant", f"{len(fl.held)} tokens held at the head of the eviction loop; exactly one is required", e))
-        if e.kind == "bind":
+        if e.kind in ("bind", "loopinit"):
+            # (loopinit: what a loop-carried variable - possibly a parameter of a helper that was looked through - holds at loop entry)
             names[e.name] = e.value
         elif e.kind == "new" and e.cls == "CountingCuckooBin":
             a = [strip_epochs(x) for x in e.args]
